@@ -175,7 +175,7 @@ def run_extractors():
     os.makedirs(outdir, exist_ok=True)
     # extract_rest reads what the other translators wrote (inventory of pinned methods): last
     for m in sorted((x.name for x in pkgutil.iter_modules(fv.__path__) if x.name.startswith("extract_")),
-                    key=lambda n: (n == "extract_rest", n)):
+                    key=lambda n: ({"extract_rest": 1, "extract_print": 2}.get(n, 0), n)):
         try:
             mod = importlib.import_module("fv." + m)
             mod.generate(outdir)
